@@ -1,6 +1,7 @@
 import Sentinel.Lemmas.HotConc
 import Sentinel.Lemmas.HotConcCap
 import Sentinel.Lemmas.HotConcReload
+import Sentinel.Drv.C06
 /-!
 # C06 — Hot-parameter concurrency is capped per value and its counters conserved
 (property-level theorems; helper lemmas in `Sentinel/Lemmas/HotConc.lean`, model in `Sentinel/Model/HotConc.lean`)
@@ -1047,6 +1048,182 @@ theorem capped_sequential_reloads (ops : List OpR) (hseq : ∀ o ∈ ops, sequen
   have := hfin t ht hev v hv
   have hnn : (0 : Int) ≤ parkedOf t.rule v (runR {} ops).pend := Int.natCast_nonneg _
   omega
+
+/-- at most `P` goroutines inside `api.Entry` at any moment of a history with loads (loads do not touch parked entries) -/
+def withinR (P : Nat) : St → List OpR → Prop
+  | s, [] => s.pend.length ≤ P
+  | s, o :: os =>
+    (match o with
+     | .op o => within P s [o]
+     | _ => True) ∧ withinR P (stepR s o) os
+
+/-- **the cap under any schedule, across reloads**: at most `P` goroutines inside `api.Entry` at once (`withinR`), loads
+that meet `ReloadSide` (cells stay meaningful) and `CapSide` (no threshold lowered under entries in flight) ⇒ every
+controller in force that has not evicted has at most `max(threshold(v),0) + P − 1` entries in flight for any value — a kept
+controller counted across the reload, a rebuilt one per generation. `P = 1` is `capped_sequential_reloads`. -/
+theorem capped_sched_reloads (P : Nat) (hP : 1 ≤ P) (ops : List OpR) (hw : withinR P {} ops)
+    (hg : GoodR {} ops) (hcap : GoodCapR {} ops) :
+    ∀ t ∈ (runR {} ops).tcs, t.ev = false → ∀ v, v ≠ Val.nil →
+      (liveOf t.rule v (runR {} ops).live : Int) ≤ max (t.rule.thrOf v) 0 + P - 1 := by
+  have key : ∀ (ops : List OpR) (s : St), withinR P s ops → GoodR s ops → GoodCapR s ops →
+      Inv s → CappedP P s → CappedP P (runR s ops) := by
+    intro ops
+    induction ops with
+    | nil => intro s _ _ _ _ hc; exact hc
+    | cons o os ih =>
+      intro s hw hg hcap hinv hc
+      cases o with
+      | op o =>
+        exact ih (step s o) hw.2 hg.2 hcap.2 (inv_step s o hinv) (cappedP_step P s o [] hw.1 hinv hc)
+      | load rules =>
+        exact ih (load s rules) hw.2 hg.2 hcap.2 (inv_load_partial s rules hinv hg.1)
+          (cappedP_retcs P hP s _ hc hcap.1)
+      | reload rules =>
+        exact ih (reload s rules) hw.2 hg.2 hcap.2 (inv_reload_partial s rules hinv hg.1)
+          (cappedP_retcs P hP s _ hc hcap.1)
+      | reloadRes res rules =>
+        exact ih (reloadRes s res rules) hw.2 hg.2 hcap.2 (inv_reloadRes_partial s res rules hinv hg.1)
+          (cappedP_retcs P hP s _ hc hcap.1)
+  have hfin := key ops {} hw hg hcap ⟨by simp, by simp⟩ (by intro t ht; simp at ht)
+  intro t ht hev v hv
+  have := hfin t ht hev v hv
+  have hnn : (0 : Int) ≤ parkedOf t.rule v (runR {} ops).pend := Int.natCast_nonneg _
+  omega
+
+/-! ### several `WithArgs` options on one `Entry` (the `+` token of the op language)
+
+`api.WithArgs` appends: `Input.Args` of a call with the options `WithArgs(g₁…), WithArgs(g₂…), …` is the concatenation
+`g₁ ++ g₂ ++ …`.  The model's `entry` / `check` take that concatenated list, so how a list is split into options is not an
+input of any modelled step: -/
+
+/-- `api.Entry(res, WithArgs(g₁…), WithArgs(g₂…), …)` -/
+def entrySplit (s : St) (id res : String) (groups : List (List Val)) (atts : List (String × Val)) : St × Res :=
+  entry s id res groups.flatten atts
+
+/-- **any two splittings of the same argument list are observationally equal**: same verdict, same cells, same ledger -/
+theorem entrySplit_eq (s : St) (id res : String) (g₁ g₂ : List (List Val)) (atts : List (String × Val))
+    (h : g₁.flatten = g₂.flatten) : entrySplit s id res g₁ atts = entrySplit s id res g₂ atts := by
+  unfold entrySplit; rw [h]
+
+/-- in particular a split call is the unsplit call (also with empty options anywhere) -/
+theorem entrySplit_single (s : St) (id res : String) (g : List (List Val)) (atts : List (String × Val)) :
+    entrySplit s id res g atts = entry s id res g.flatten atts := rfl
+
+/-- and whole histories: replacing every entry's argument list by any re-splitting of it changes nothing -/
+theorem step_split_eq (s : St) (id res : String) (g₁ g₂ : List (List Val)) (atts : List (String × Val))
+    (h : g₁.flatten = g₂.flatten) :
+    step s (.entry id res g₁.flatten atts) = step s (.entry id res g₂.flatten atts) ∧
+    step s (.check id res g₁.flatten atts) = step s (.check id res g₂.flatten atts) := by
+  rw [h]; exact ⟨rfl, rfl⟩
+
+/-! ### the storm line
+
+After any schedule of entries, check/commit interleavings and exits — also exits issued twice for one entry, in any
+overlap: `exit_twice` — at the end of which every admitted entry has been exited (the ledger is empty), every cell of every
+controller that has not evicted is 0 (`returns_to_zero`), so the sequential probe starts from an empty ledger: -/
+
+/-- a doubled exit anywhere in a history leaves the final state unchanged (ids of live entries are distinct) -/
+theorem run_exit_doubled (s : St) (id : String) (rest : List Op) (h : (s.live.map (·.id)).Nodup) :
+    run s (.exit id :: .exit id :: rest) = run s (.exit id :: rest) := by
+  show run (step (step s (.exit id)) (.exit id)) rest = run (step s (.exit id)) rest
+  simp only [step]
+  rw [exit_twice s id h]
+
+/-- **after the round, all cells are 0 and the first probe entry is admitted iff every threshold in force for the value
+is positive** — whatever the schedule of the round was -/
+theorem storm_first_probe (rules : List Rule) (ops : List Op) (hall : (run (init rules) ops).live = [])
+    (hev : ∀ t ∈ (run (init rules) ops).tcs, t.ev = false) (id res : String) (v : Val) :
+    (∀ t ∈ (run (init rules) ops).tcs, ∀ w, w ≠ Val.nil → cellOf t.cache w = 0) ∧
+    ((entry (run (init rules) ops) id res [v] []).2 = Res.pass ↔
+      (¬ res ∈ (run (init rules) ops).fb ∧
+       ∀ t ∈ (run (init rules) ops).tcs, t.rule.sel res [v] [] ≠ Val.nil → 0 < t.rule.thrOf (t.rule.sel res [v] []))) := by
+  refine ⟨fun t ht w hw => returns_to_zero rules ops hall t ht (hev t ht) w hw, ?_⟩
+  rw [admit_iff rules ops id res [v] [] hev, hall]
+  simp [liveOf]
+
+theorem entry_rules_fb (s : St) (id res : String) (a : List Val) (at' : List (String × Val)) :
+    (entry s id res a at').1.tcs.map (·.rule) = s.tcs.map (·.rule) ∧ (entry s id res a at').1.fb = s.fb := by
+  unfold entry
+  by_cases h1 : s.fb.contains res = true
+  · simp only [h1, if_true]; exact ⟨trivial, trivial⟩
+  · by_cases h2 : (checkTcs res a at' s.tcs).2 = true
+    · simp only [h1, h2, Bool.false_eq_true, if_false, if_true]
+      exact ⟨checkTcs_rules .., trivial⟩
+    · simp only [h1, h2, Bool.false_eq_true, if_false, List.map_map]
+      refine ⟨?_, trivial⟩
+      rw [← checkTcs_rules res a at' s.tcs]
+      apply List.map_congr_left
+      intro t _; simp
+
+/-- **the storm line** (`Sentinel.Drv.C06.probe` is the probe the driver runs): one concurrency rule `r` in force that
+selects `v`; `k` entries for `v` in flight (`k = 0` after a round whose admitted entries have all exited, whatever the
+schedule and however many of the exits were doubled: `returns_to_zero`, `exit_twice`); no eviction while probing.  Then `n`
+sequential probe attempts end with exactly `max k (min (k + n) T)` admitted, `T = max(threshold(v), 0)`: from `k = 0` the
+probe admits exactly the threshold, or its cap `n`.  Partial: one rule on the resource (several rules: the least
+threshold — not proved), and the no-eviction hypothesis (the storm's fresh values do overflow the cache in the long run; that
+those evictions only drop dead cells is argued in the notes, not proved). -/
+theorem probe_admits_partial (r : Rule) (res : String) (v : Val) (hv : v ≠ Val.nil) (hsel : r.sel res [v] [] = v) (n : Nat) :
+    ∀ (s : St) (k : Nat), Inv s → s.tcs.map (·.rule) = [r] → ¬ res ∈ s.fb → liveOf r v s.live = k →
+      (∀ m ≤ n, ∀ t ∈ (Sentinel.Drv.C06.probe s res v m k).1.tcs, t.ev = false) →
+      (Sentinel.Drv.C06.probe s res v n k).2 = max k (min (k + n) (r.thrOf v).toNat) := by
+  induction n with
+  | zero =>
+    intro s k _ _ _ _ _
+    simp [Sentinel.Drv.C06.probe]
+  | succ n ih =>
+    intro s k hinv hr hfb hk hev
+    have hev0 : ∀ t ∈ s.tcs, t.ev = false := by
+      have := hev 0 (Nat.zero_le _)
+      simpa [Sentinel.Drv.C06.probe] using this
+    have hrule : ∀ t ∈ s.tcs, t.rule = r := by
+      intro t ht
+      have : t.rule ∈ s.tcs.map (·.rule) := List.mem_map_of_mem ht
+      rw [hr] at this
+      simpa using this
+    have hne : ∃ t, t ∈ s.tcs := by
+      cases hts : s.tcs with
+      | nil => rw [hts] at hr; simp at hr
+      | cons t ts => exact ⟨t, List.mem_cons_self ..⟩
+    have hstep : ∀ (m : Nat), Sentinel.Drv.C06.probe s res v (m + 1) k =
+        (if ((entry s s!"probe{k}" res [v] []).2 == Res.pass) = true
+         then Sentinel.Drv.C06.probe (entry s s!"probe{k}" res [v] []).1 res v m (k + 1)
+         else ((entry s s!"probe{k}" res [v] []).1, k)) := fun _ => rfl
+    generalize (s!"probe{k}" : String) = pid at hstep
+    have hadm := admit_iff_of_inv s hinv pid res [v] [] hev0
+    have hpass : (entry s pid res [v] []).2 = Res.pass ↔ k < (r.thrOf v).toNat := by
+      rw [hadm]
+      constructor
+      · rintro ⟨_, h⟩
+        obtain ⟨t, ht⟩ := hne
+        have := h t ht (by rw [hrule t ht, hsel]; exact hv)
+        rw [hrule t ht, hsel, hk] at this
+        exact (Int.lt_toNat).mpr this
+      · intro h
+        refine ⟨hfb, fun t ht _ => ?_⟩
+        rw [hrule t ht, hsel, hk]
+        exact (Int.lt_toNat).mp h
+    rw [hstep n]
+    by_cases hp : (entry s pid res [v] []).2 = Res.pass
+    · have hlt := hpass.mp hp
+      have hb : ((entry s pid res [v] []).2 == Res.pass) = true := by rw [hp]; rfl
+      rw [if_pos hb]
+      have hrf := entry_rules_fb s pid res [v] []
+      have hlive := admitted_counted s pid res [v] [] hp
+      rw [ih (entry s pid res [v] []).1 (k + 1) (inv_entry s _ res [v] [] hinv)
+        (by rw [hrf.1]; exact hr) (by rw [hrf.2]; exact hfb)
+        (by rw [hlive, liveOf_cons, hk]; simp [hsel])
+        (by
+          intro m hm t ht
+          have := hev (m + 1) (by omega) t
+          rw [hstep m, if_pos hb] at this
+          exact this ht)]
+      omega
+    · have hge : ¬ k < (r.thrOf v).toNat := fun h => hp (hpass.mpr h)
+      have hb : ¬ ((entry s pid res [v] []).2 == Res.pass) = true := by
+        intro hc; exact hp (by simpa using hc)
+      rw [if_neg hb]
+      show k = _
+      omega
 
 /-- reloading exactly the rules in force meets both side conditions whatever is alive -/
 theorem sides_of_same (s : St) (hv : ∀ t ∈ s.tcs, t.rule.valid = true) :
